@@ -12,5 +12,8 @@ def go(test, q, t, **kw):
 
 CHECKS = {
     "C01": {"level": E, "units": [go("TestC01", 8000, 400000)]},
+    "C17": {"level": E, "units": [go("TestC17Single", 1000000, 16, netns=False), go("TestC17Pairs", 200000, 3000000, netns=False)]},
+    "C06": {"level": E, "units": [go("TestC06Exhaustive", 16, 16, netns=False), go("TestC06Seq", 40000, 2000000, netns=False),
+                                  go("TestC06Conc", 3000, 60000, race=True, netns=False, confirm=False)], "replay_race": False},
     "C02": {"level": E, "units": [go("TestC02", 1600, 60000)]},
 }
